@@ -93,6 +93,9 @@ def _run_spec(spec):
         # a user-defined AdiabaticModel_ (truncated auxiliary problem) whose two kept states cross at x = 0
         from ..synth import BlocksModel
         model = BlocksModel(**spec["blocks"])
+    if spec.get("builtin"):
+        # a built-in model with NON-DEFAULT constructor parameters (the defaults hide a factor that happens to be 1 or equal)
+        model = mudslide.models.scattering_models[spec["builtin"]](**spec.get("kwargs", {}))
     if spec.get("int_mass"):
         model.mass = np.ceil(model.mass).astype(np.int64)       # a user-defined model with an integer-dtype mass vector
     if spec.get("precompute"):
@@ -385,6 +388,24 @@ def run(ctx):
         ctx.count("drift_runs")
         for r_ in obs["ratios"]:
             ctx.monitor("max_drift_ratio", r_)
+        if not ok:
+            ctx.oracle_fail("energy-drift-order", "drift", spec, obs, req, text)
+    # hop-free runs on the built-in models with non-default parameters: the force has to be minus the gradient of THAT potential
+    for j in range(ctx.budget(4, 40)):
+        name = ["models", "modelx", "simple", "dual", "extended", "super"][j % 6]
+        kw = {"models": dict(a=float(rng.uniform(0.02, 0.04)), b=float(rng.choice([0.5, 2.0, 1.5])), xp=float(rng.uniform(5, 8))),
+              "modelx": dict(a=float(rng.uniform(0.02, 0.04)), b=float(rng.choice([0.5, 2.0, 1.5])), xp=float(rng.uniform(5, 8))),
+              "simple": dict(a=float(rng.uniform(0.005, 0.02)), b=float(rng.uniform(0.8, 2.5))),
+              "dual": dict(a=float(rng.uniform(0.05, 0.2)), b=float(rng.uniform(0.2, 0.5)), e=float(rng.uniform(0.03, 0.08))),
+              "extended": dict(b=float(rng.uniform(0.05, 0.2)), c=float(rng.uniform(0.5, 1.5))),
+              "super": dict(v22=float(rng.uniform(0.005, 0.02)))}[name]
+        nst = 3 if name in ("models", "modelx", "super") else 2
+        spec = dict(cls="TrajectorySH", builtin=name, kwargs=kw, N=nst, n=1, model_seed=1, seed=int(rng.integers(1, 10 ** 6)),
+                    x0=[-9.0 if name in ("models", "modelx") else -4.0], p0=[float(rng.uniform(15.0, 25.0))], state=int(rng.integers(0, nst)),
+                    dt=4.0, steps=int(rng.integers(250, 350)) if name in ("models", "modelx") else 120)
+        ok, obs, req, text = oracle_drift(spec)
+        ctx.case(("drift-builtin", name))
+        ctx.count("drift_runs_on_builtin_models_with_non_default_parameters")
         if not ok:
             ctx.oracle_fail("energy-drift-order", "drift", spec, obs, req, text)
     # batches whose members start at DIFFERENT points
